@@ -729,3 +729,53 @@ Definition S_storeconc_kv_replay : Prop :=
     represents (kv_run hist) (kv_replay (last hist [])) /\
     (sched <> [] -> last hist [] = listing (s_view s)) /\
     (sall_done s -> forall x, In x (s_view s) <-> In x (s_log s)).
+
+(** * Network convergence with holes, failed-fetch memory and restarts (C02, second model) *)
+From Orbit Require Export Model.NetHoles.
+
+(** With the mechanism "Load records what it could not load" ([rm] = true): in EVERY reachable
+    state (any interleaving of writes, replication requests for any heads with any per-hash
+    fetch outcome, restarts under any fetch outcome), on every replica: every link target of
+    a held entry is held or is remembered as failed (so the next request retries it); the
+    log only holds written entries; every entry is held by its writer; every held entry is in
+    the ancestry of a cached head. *)
+Definition S_holes_invariant : Prop :=
+  forall n steps i rp,
+    let s := hrun true steps (hinit n) in
+    nth_error (h_reps s) i = Some rp ->
+    (forall y, In y (dangling (h_univ s) (h_log rp)) -> In y (h_failed rp)) /\
+    (forall h, In h (h_log rp) -> In h (map u_hash (h_univ s))) /\
+    (forall h, In (h, i) (h_owner s) -> In h (h_log rp)) /\
+    (forall h, In h (h_log rp) -> In h (anc_set (h_univ s) (h_cached rp))).
+
+(** A restart never loses an entry of the log (the cached heads cover the log through held
+    entries, whose blocks are in the replica's own block store); whatever [rm]. *)
+Definition S_holes_restart_keeps : Prop :=
+  forall rm n steps r ok rp rp',
+    let s := hrun rm steps (hinit n) in
+    nth_error (h_reps s) r = Some rp ->
+    nth_error (h_reps (hstep_run rm s (HRestart r ok))) r = Some rp' ->
+    forall h, In h (h_log rp) -> In h (h_log rp').
+
+(** ... and after the final phase every replica's log is exactly the set of all written
+    entries: all replicas are equal, no link target is missing, nothing is left failed. *)
+Definition S_holes_converge : Prop :=
+  forall n steps a b ra rb,
+    (2 <= n)%nat ->
+    let s := hfinal true (hrun true steps (hinit n)) in
+    nth_error (h_reps s) a = Some ra -> nth_error (h_reps s) b = Some rb ->
+    same_setN (h_log ra) (map u_hash (h_univ s)) /\
+    same_setN (h_log ra) (h_log rb) /\
+    dangling (h_univ s) (h_log ra) = [] /\
+    h_failed ra = [].
+
+(** Without the record ([rm] = false, the code before the repair) there is a history after
+    whose final phase a replica still misses a written entry: a request fetches an entry but
+    not its ancestor, the replica restarts while the ancestor is unreachable, and from then on
+    every head it is told about is already in its log. *)
+Definition S_holes_refuted_without_record : Prop :=
+  exists n steps a ra h,
+    (2 <= n)%nat /\
+    let s := hfinal false (hrun false steps (hinit n)) in
+    nth_error (h_reps s) a = Some ra /\
+    In h (map u_hash (h_univ s)) /\ ~ In h (h_log ra).
